@@ -128,6 +128,23 @@ pub fn workload(tier: Tier, prog: &Prog) -> Vec<Work> {
         "add r0 r0 r0 add r1 r1 r1", "not r1 r1 halt", ".fill x1", ".stringz \"a\"", ".blkw 2", ".orig x3000", ".break", ".end", "first", "r0", "#5", "x3000", "\"str\"", "é", "foo bar",
         "first add r0 r0 r0", "ld r9 first", "add r0 r0 r8",
     ];
+    // one well-formed instruction followed (or preceded) by any further token: never "exactly one
+    // well-formed instruction" - except a comment or a bare separator, which are white space
+    for (base, word, r, v) in [("add r1 r1 #1", 0x1261u16, 1u8, 0x0010u16), ("not r2 r2", 0x94BF, 2, 0x00F0), ("ret", 0xC1C0, 7, orig + 2)] {
+        for tok in super::c05::TOKENS {
+            if tok.contains(';') {
+                continue; // `;` separates debugger commands: a comment cannot be written inside one
+            }
+            let blank = tok == ",";
+            w.push(Work { space: "surplus-token", regs: vec![(r, v)], pc: orig + 1, text: format!("{base} {tok}"), word: if blank { Some(word) } else { None }, open: None });
+            if !blank {
+                w.push(Work { space: "surplus-token", regs: vec![(r, v)], pc: orig + 1, text: format!("{tok} {base}"), word: None, open: None });
+            }
+        }
+        for tok in [".END", ".end add r2 r2 #2", ".end \"oops", ".orig x3000", ".break"] {
+            w.push(Work { space: "surplus-token", regs: vec![(r, v)], pc: orig + 1, text: format!("{base} {tok}"), word: None, open: None });
+        }
+    }
     for pc in [orig, orig + 4] {
         for text in refused {
             w.push(Work { space: "refused", regs: vec![(0, 0x0011)], pc, text: text.to_string(), word: None, open: None });
@@ -182,7 +199,7 @@ pub fn run(ctx: &Ctx) -> i32 {
     let parts = pooled(Some(Env::new(true)), work.len(), 16, Acc::new, |acc, i| {
         let wk = &work[i];
         acc.eval(wk.space);
-        if wk.word.is_none() && wk.space != "refused" {
+        if wk.word.is_none() && wk.space != "refused" && wk.space != "surplus-token" {
             acc.skip("label too far from the current PC for the instruction's offset field");
             return;
         }
@@ -213,7 +230,7 @@ pub fn run(ctx: &Ctx) -> i32 {
         ctx,
         acc,
         Level { category: "model_checking", bfs: None },
-        "bounded-exhaustive enumeration of `move ...; goto a; eval <text>; move r6 #123; exit` sessions on a host program with labels before and after every PC: ALU forms over register fields x covering operand values at two PCs; LDR/STR with offsets at the field limits and bases at both ends of memory; LD/LDI/LEA/ST/STI/JSR/CALL with a label operand for every label x EVERY current PC of the program; JMP/JSRR/RET, PUSH/POP/RETS, printing traps; 66 malformed or off-limits texts (BR*, RTI, HALT, trap vectors outside x20-x27, missing / surplus / wrong-kind operands, two instructions, directives, non-instructions). Oracle: reference executes the ISA encoding of the instruction with label operands denoting the label's address and PC unchanged unless the instruction jumps; R7 written by JSR/JSRR and the word pushed by CALL are left open; refused texts leave all state unchanged and the following `move r6` still takes effect. non-trivial = sessions that agreed",
+        "bounded-exhaustive enumeration of `move ...; goto a; eval <text>; move r6 #123; exit` sessions on a host program with labels before and after every PC: ALU forms over register fields x covering operand values at two PCs; LDR/STR with offsets at the field limits and bases at both ends of memory; LD/LDI/LEA/ST/STI/JSR/CALL with a label operand for every label x EVERY current PC of the program; JMP/JSRR/RET, PUSH/POP/RETS, printing traps; 66 malformed or off-limits texts, and three instructions followed or preceded by each token of a 32-token alphabet (every lexical kind incl. every directive) (BR*, RTI, HALT, trap vectors outside x20-x27, missing / surplus / wrong-kind operands, two instructions, directives, non-instructions). Oracle: reference executes the ISA encoding of the instruction with label operands denoting the label's address and PC unchanged unless the instruction jumps; R7 written by JSR/JSRR and the word pushed by CALL are left open; refused texts leave all state unchanged and the following `move r6` still takes effect. non-trivial = sessions that agreed",
         true,
         &["executed-and-equal", "refused-and-alive", "label-operand-away-from-origin"],
         &["literal PC offsets are not generated (unspecified by the property)"],
